@@ -17,7 +17,7 @@ RULE = ('random files (as C02) x random sequences of 1-6 operations (copy, slice
         'stack with itself, file arithmetic with itself and with a dimension-permuted copy, mask) with in-domain arguments plus ~10% out-of-domain '
         'ones; after EVERY step the real file is checked for well-formedness (oracle) and compared completely '
         '(dimensions with unlimited flags, variables, shapes, data, masks, attribute names) with the model; '
-        'IOAPI files: the C10 sequences (copy, slice incl. list+integer windows, subset, rename, apply, eval, mask, stack, interpSigma) compared with the IOAPI model and judged by the same well-formedness predicate plus "TSTEP is unlimited"; non-trivial = at least two variables with different dimension sets and an operation that changes a length')
+        'IOAPI files: the C10 sequences (copy, slice incl. list+integer windows, subset, rename, apply, eval, mask, stack, interpSigma) compared with the IOAPI model and judged by the same well-formedness predicate plus "TSTEP is unlimited"; scenarios outside the operation model, judged by the well-formedness predicate alone (getvarpnc on CF files with bounds variables, masked variables with packing attributes through eval / reorderDimensions / arithmetic / slice_dim, IOAPI files built with their own TFLAG and what is derived from them); non-trivial = at least two variables with different dimension sets and an operation that changes a length')
 ASSUMPTIONS = ['interpDimension and eval are exercised by C17 / C06 rather than inside these sequences']
 MIN_NONTRIVIAL = {'quick': 60, 'thorough': 600}
 
@@ -96,9 +96,170 @@ def _case(rng):
     return dict(spec=spec, ops=ops)
 
 
+def _scenario(rng):
+    """scenarios outside the operation model, judged by the well-formedness predicate on the real objects after every
+    step: (a) getvarpnc (pncparse -v, merge, manglenames) on a CF-style file whose dimension coordinates name bounds
+    variables with a dimension of their own; (b) masked variables carrying packing attributes through operations that
+    store derived arrays (eval, reorderDimensions, file arithmetic, legacy slice_dim); (c) IOAPI files constructed with
+    their own TFLAG (from_arrays(..., TFLAG=...), hand-built + updatemeta) and what is derived from them"""
+    k = rng.choice(['getvar', 'getvar', 'packed', 'packed', 'ioapi_tflag'])
+    if k == 'getvar':
+        nt, nx, ny = rng.randint(1, 3), rng.randint(1, 3), rng.randint(1, 3)
+        coords = rng.sample(['time', 'x', 'y'], rng.randint(1, 3))      # dimension coordinates that exist
+        bounds = [c for c in coords if rng.random() < 0.7]               # those with a bounds variable
+        data = [['A', ['time', 'x']], ['B', ['x']], ['C', ['time', 'y', 'x']], ['D', ['y']]]
+        pick = rng.sample([d[0] for d in data], rng.randint(1, 3))
+        return dict(family='scenario', kind=k, nt=nt, nx=nx, ny=ny, coords=coords, bounds=bounds, pick=pick,
+                    declared=rng.random() < 0.3, unlimited=rng.random() < 0.5,
+                    then=rng.choice(['copy', 'slice', 'none']))
+    if k == 'packed':
+        return dict(family='scenario', kind=k, n0=rng.randint(1, 3), n1=rng.randint(1, 3),
+                    attrs=rng.sample(['scale_factor', 'add_offset', 'valid_min', 'units', 'missing_value'], rng.randint(1, 4)),
+                    masked=rng.random() < 0.8,
+                    ops=[rng.choice(['evalexpr', 'evalname', 'reorder', 'binop', 'slice_dim', 'copy', 'mask', 'apply'])
+                         for _ in range(rng.randint(1, 3))])
+    return dict(family='scenario', kind=k, nt=rng.randint(1, 3), nz=rng.randint(1, 2), ny=rng.randint(1, 3), nx=rng.randint(1, 3),
+                how=rng.choice(['from_arrays', 'from_arrays', 'handbuilt']), nvars=rng.randint(1, 2),
+                ops=[rng.choice(['slice_t', 'slice_l', 'apply_l', 'removesingleton', 'copy', 'subset'])
+                     for _ in range(rng.randint(1, 3))])
+
+
+def _impl_scenario(c):
+    import PseudoNetCDF as pnc
+    states = []
+
+    def rec(g, label):
+        st = dict(step=label, wf=_wf(g))
+        if c['kind'] == 'ioapi_tflag':
+            st['tstep_unlimited'] = bool(g.dimensions['TSTEP'].isunlimited()) if 'TSTEP' in g.dimensions else None
+        states.append(st)
+    with lib.pnc_warnings(), np.errstate(all='ignore'):
+        try:
+            if c['kind'] == 'getvar':
+                from PseudoNetCDF.core._functions import getvarpnc
+                f = pnc.PseudoNetCDFFile()
+                lens = dict(time=c['nt'], x=c['nx'], y=c['ny'])
+                for d, n in lens.items():
+                    dv = f.createDimension(d, n)
+                    if d == 'time' and c['unlimited']:
+                        dv.setunlimited(True)
+                f.createDimension('nv', 2)
+                for d in c['coords']:
+                    v = f.createVariable(d, 'd', (d,))
+                    v[:] = np.arange(lens[d]) + 0.5
+                    v.units = 'hours since 2000-01-01' if d == 'time' else 'm'
+                    if d in c['bounds']:
+                        v.bounds = d + '_bounds'
+                        b = f.createVariable(d + '_bounds', 'd', (d, 'nv'))
+                        b[:, 0] = np.arange(lens[d])
+                        b[:, 1] = np.arange(lens[d]) + 1
+                for name, dims in [['A', ['time', 'x']], ['B', ['x']], ['C', ['time', 'y', 'x']], ['D', ['y']]]:
+                    v = f.createVariable(name, 'f', tuple(dims))
+                    v[...] = np.arange(int(np.prod([lens[d] for d in dims]))).reshape([lens[d] for d in dims])
+                    v.units = 'ppb'
+                if c['declared']:
+                    f.setCoords(list(c['coords']) + [d + '_bounds' for d in c['bounds']])
+                rec(f, 'source')
+                g = getvarpnc(f, list(c['pick']))
+                rec(g, 'getvarpnc %s' % c['pick'])
+                if c['then'] == 'copy':
+                    rec(g.copy(), 'copy')
+                elif c['then'] == 'slice':
+                    d0 = list(g.dimensions)[0]
+                    rec(g.sliceDimensions(**{d0: 0}), 'slice %s' % d0)
+            elif c['kind'] == 'packed':
+                f = pnc.PseudoNetCDFFile()
+                f.createDimension('a', c['n0'])
+                f.createDimension('b', c['n1'])
+                kw = dict(fill_value=-999.) if c['masked'] else {}
+                P = f.createVariable('P', 'f', ('a', 'b'), **kw)
+                vals = np.arange(c['n0'] * c['n1'], dtype='f').reshape(c['n0'], c['n1']) + 1
+                P[...] = np.ma.masked_values(vals, 2.) if c['masked'] else vals
+                for a in c['attrs']:
+                    setattr(P, a, {'scale_factor': 0.5, 'add_offset': 10., 'valid_min': 0., 'units': 'K', 'missing_value': -999.}[a])
+                R = f.createVariable('R', 'f', ('b',))
+                R[...] = np.arange(c['n1'])
+                rec(f, 'source')
+                for op in c['ops']:
+                    if op == 'evalexpr':
+                        f = f.eval('Q = P * 2', inplace=False, copyall=True)
+                    elif op == 'evalname':
+                        f = f.eval('Q = P', inplace=False, copyall=True)
+                    elif op == 'reorder':
+                        f = f.reorderDimensions(['a', 'b'], ['b', 'a'])
+                    elif op == 'binop':
+                        f = f + f
+                    elif op == 'slice_dim':
+                        from PseudoNetCDF.core._functions import slice_dim
+                        f = slice_dim(f, 'a,0,1')
+                    elif op == 'mask':
+                        f = f.mask(greater=1e9)
+                    elif op == 'apply':
+                        f = f.applyAlongDimensions(b='max')
+                    else:
+                        f = f.copy()
+                    rec(f, op)
+            else:
+                from PseudoNetCDF.cmaqfiles._ioapi import ioapi_base
+                nt, nz, ny, nx = c['nt'], c['nz'], c['ny'], c['nx']
+                names = ['O3', 'NO2'][:c['nvars']]
+                tflag = np.zeros((nt, len(names), 2), dtype='i')
+                tflag[:, :, 0] = 2019001
+                tflag[:, :, 1] = (np.arange(nt) * 10000)[:, None]
+                arrs = {k: np.arange(nt * nz * ny * nx, dtype='f').reshape(nt, nz, ny, nx) + i for i, k in enumerate(names)}
+                fattrs = dict(SDATE=2019001, STIME=0, TSTEP=10000, NVARS=len(names), NLAYS=nz, NROWS=ny, NCOLS=nx,
+                              VGLVLS=np.linspace(1, 0, nz + 1).astype('f'), VGTOP=np.float32(5000), VGTYP=7, GDTYP=2,
+                              XORIG=0., YORIG=0., XCELL=1000., YCELL=1000., FTYPE=1, NTHIK=1, GDNAM='G'.ljust(16),
+                              UPNAM='U'.ljust(16), FILEDESC='x'.ljust(80), HISTORY=' '.ljust(80), P_ALP=30., P_BET=60., P_GAM=-97.,
+                              XCENT=-97., YCENT=40.)
+                setattr_list = ''.join(k.ljust(16) for k in names)
+                if c['how'] == 'from_arrays':
+                    fa = dict(fattrs)
+                    fa['VAR-LIST'] = setattr_list
+                    f = ioapi_base.from_arrays(fileattrs=fa, TFLAG=tflag, **arrs)
+                else:
+                    f = ioapi_base()
+                    for k_, v_ in fattrs.items():
+                        setattr(f, k_, v_)
+                    setattr(f, 'VAR-LIST', setattr_list)
+                    for d, n in (('TSTEP', nt), ('DATE-TIME', 2), ('LAY', nz), ('VAR', len(names)), ('ROW', ny), ('COL', nx)):
+                        f.createDimension(d, n)
+                    tv = f.createVariable('TFLAG', 'i', ('TSTEP', 'VAR', 'DATE-TIME'))
+                    tv[...] = tflag
+                    tv.units = '<YYYYDDD,HHMMSS>'
+                    tv.long_name = 'TFLAG'.ljust(16)
+                    tv.var_desc = 'TFLAG'.ljust(80)
+                    for k_ in names:
+                        v = f.createVariable(k_, 'f', ('TSTEP', 'LAY', 'ROW', 'COL'))
+                        v[...] = arrs[k_]
+                        v.units = 'ppb'.ljust(16)
+                        v.long_name = k_.ljust(16)
+                        v.var_desc = k_.ljust(80)
+                    f.updatemeta()
+                rec(f, c['how'])
+                for op in c['ops']:
+                    if op == 'slice_t':
+                        f = f.sliceDimensions(TSTEP=slice(0, max(1, nt - 1)))
+                    elif op == 'slice_l':
+                        f = f.sliceDimensions(LAY=[0])
+                    elif op == 'apply_l':
+                        f = f.applyAlongDimensions(LAY='mean')
+                    elif op == 'removesingleton':
+                        f = f.removeSingleton()
+                    elif op == 'subset':
+                        f = f.subsetVariables([names[0]])
+                    else:
+                        f = f.copy()
+                    rec(f, op)
+        except Exception as e:
+            states.append(dict(err=type(e).__name__, msg=str(e)[:100]))
+    return dict(states=states)
+
+
 def gen(rng, tier):
     n = 300 if tier == 'quick' else 10000
     out = [_case(rng) for _ in range(n)]
+    out += [_scenario(rng) for _ in range(n // 5)]
     # IOAPI files (the subclass overrides most operations and re-derives dimensions and metadata): the C10 sequences,
     # judged here by the well-formedness predicate and the TSTEP-unlimited clause
     for _ in range(n // 6):
@@ -147,6 +308,8 @@ _wf = pfile.wellformed
 
 
 def impl(case):
+    if case.get('family') == 'scenario':
+        return _impl_scenario(case)
     if case.get('family') == 'ioapi':
         return c10.impl(case['c10'])
     f = pfile.build(case['spec'])
@@ -185,6 +348,8 @@ def _tok(op):
 
 
 def to_line(case, res):
+    if case.get('family') == 'scenario':
+        return 'c01 run - - -'          # no model question: judged by the oracle
     if case.get('family') == 'ioapi':
         return c10.to_line(case['c10'], res)
     d, v, a = pfile.encode(case['spec'])
@@ -192,6 +357,8 @@ def to_line(case, res):
 
 
 def agree(case, out, res):
+    if case.get('family') == 'scenario':
+        return None
     if case.get('family') == 'ioapi':
         return c10.agree(case['c10'], out, res)
     mstates = out.split(' || ')
@@ -214,6 +381,15 @@ def agree(case, out, res):
 
 
 def oracle(case, res):
+    if case.get('family') == 'scenario':
+        for st in res['states']:
+            if 'err' in st:
+                return 'scenario %s raised %s (%s) after %d steps' % (case['kind'], st['err'], st.get('msg'), len(res['states']) - 1)
+            if st['wf']:
+                return 'scenario %s, after %s: %s' % (case['kind'], st['step'], st['wf'])
+            if st.get('tstep_unlimited') is False:
+                return 'scenario %s, after %s: the TSTEP dimension of the IOAPI file is not unlimited' % (case['kind'], st['step'])
+        return None
     if case.get('family') == 'ioapi':
         if res.get('init_wf'):
             return 'the %s source file: %s' % (case['c10']['src']['kind'], res['init_wf'])
@@ -245,6 +421,8 @@ def classify(case, failure, model_out):
 
 
 def nontrivial(case, res):
+    if case.get('family') == 'scenario':
+        return len(res['states']) >= 2 and 'err' not in res['states'][-1]
     if case.get('family') == 'ioapi':
         return c10.nontrivial(case['c10'], res)
     sets = {tuple(sorted(v['dims'])) for v in case['spec']['vars']}
@@ -254,6 +432,10 @@ def nontrivial(case, res):
 def distribution(recs):
     d = {}
     for r in recs:
+        if r['case'].get('family') == 'scenario':
+            key = 'scenario:' + r['case']['kind'] + ('!' if any('err' in st for st in r['impl']['states']) else '')
+            d[key] = d.get(key, 0) + 1
+            continue
         if r['case'].get('family') == 'ioapi':
             for op, st in zip(r['impl']['ops'], r['impl']['states']):
                 key = 'ioapi:' + op[0] + ('!' if 'err' in st else '')
